@@ -312,9 +312,8 @@ Conversion<Unit::ElectricCurrent, Unit::ElectricCurrent::ElementaryChargePerHour
 }
 
 template <typename NumericType>
-inline const std::
-    map<Unit::ElectricCurrent, std::function<void(NumericType* values, const std::size_t size)>>
-        MapOfConversionsFromStandard<Unit::ElectricCurrent, NumericType>{
+inline const ConversionTable<Unit::ElectricCurrent, NumericType>
+    MapOfConversionsFromStandard<Unit::ElectricCurrent, NumericType>{
           {Unit::ElectricCurrent::Ampere,
            Conversions<Unit::ElectricCurrent, Unit::ElectricCurrent::Ampere>::
                FromStandard<NumericType>},
@@ -351,8 +350,7 @@ inline const std::
 };
 
 template <typename NumericType>
-inline const std::map<Unit::ElectricCurrent,
-                      std::function<void(NumericType* const values, const std::size_t size)>>
+inline const ConversionTable<Unit::ElectricCurrent, NumericType>
     MapOfConversionsToStandard<Unit::ElectricCurrent, NumericType>{
       {Unit::ElectricCurrent::Ampere,
        Conversions<Unit::ElectricCurrent, Unit::ElectricCurrent::Ampere>::ToStandard<NumericType>},
